@@ -23,7 +23,12 @@ RULE = ("exhaustive: every form (unary/binary/bool/compare/ifexp/lambda/call/sub
         "every child slot (depth 2; quick: reduced leaves, thorough: all leaves), every chain of three operators out of 29 with "
         "the inner operation in every child position, each rendered inline and as a constant value; literal leaves x all "
         "linelen/maxlines settings; random trees up to depth 4 x random settings. Distinct by construction (enumerations) or by "
-        "hash of (text, settings); non-trivial when the expression has >=1 operator/call/container node.")
+        "hash of (text, settings); non-trivial when the expression has >=1 operator/call/container node. In-situ: generated "
+        "expressions placed at every display site of a real module page (constant value, default, parameter/return/variable "
+        "annotation, decorator argument, base-class subscript, type alias) and read back from the rendered signature/table. "
+        "Regex: generated re.compile() patterns (groups, named groups, back-references, alternations, classes, repeats, inline "
+        "and scoped flags, str and bytes, raw and cooked) whose displayed pattern must parse to the same sre tree; non-trivial "
+        "when the pattern has a metacharacter.")
 ASSUMPTIONS = [
     "documented spelling changes only: set literals shown as set([...]), quote style, numeric formatting, redundant parentheses",
     "the wrap marker is U+21B5 followed by a newline; the truncation marker is '...' at the very end",
@@ -234,6 +239,12 @@ def plan(tier: str, seed: int, scale: float = 1.0) -> List[Any]:
     rn = int((6000 if tier == 'quick' else 60000) * scale)
     for i in range(n):
         items.append({'kind': 'random', 'n': max(1, rn // n), 'seed': seed * 1000 + i})
+    sn = int((1200 if tier == 'quick' else 20000) * scale)
+    for i in range(n):
+        items.append({'kind': 'sites', 'n': max(1, sn // n), 'seed': seed * 1000 + 200 + i})
+    gn = int((16000 if tier == 'quick' else 300000) * scale)
+    for i in range(n):
+        items.append({'kind': 'regex', 'n': max(1, gn // n), 'seed': seed * 1000 + 300 + i})
     return items
 
 
@@ -289,6 +300,35 @@ def work(item: Dict[str, Any]) -> Acc:
                     run(text, m, 'literal', True)
         acc.classes['literals-x-settings'] += acc.evals
         acc.exhaustive_parts.append('literal leaves x 16 linelen/maxlines settings + inline')
+    elif kind == 'sites':
+        from hypothesis import strategies as st
+
+        def body_s(es):
+            good = []
+            for e in es:
+                try:
+                    if not check_text(e, 'inline') and not check_text(e, (0, 0)) and render(e, 'inline')[1]:
+                        good.append(e)
+                except Exception:
+                    pass
+            if not good:
+                return
+            d, n = check_sites(good)
+            acc.case(key=good, nontrivial=True, sample=({'expressions': good, 'sites': SITES} if acc.evals % 50 == 0 else None), classes=['in-situ'])
+            acc.notes['site_renderings_compared'] = acc.notes.get('site_renderings_compared', 0) + n
+            judge(ID, acc, {'kind': 'sites', 'exprs': good}, d)
+        hyp_run(acc, st.lists(exprs.st_expr(3), min_size=1, max_size=6), body_s, item['n'], item['seed'])
+        return acc
+    elif kind == 'regex':
+        def body_r(c):
+            pat, flags, raw, as_bytes = c
+            d, used = check_regex(pat, flags, raw, as_bytes)
+            if not used:
+                return
+            acc.case(key=c, nontrivial=any(ch in pat for ch in '()[]{}*+?|\\'), sample=({'pattern': pat, 'flags': flags, 'bytes': as_bytes} if acc.evals % 500 == 0 else None), classes=['regex'])
+            judge(ID, acc, {'kind': 'regex', 'pat': pat, 'flags': flags, 'raw': raw, 'bytes': as_bytes}, d)
+        hyp_run(acc, st_regex(), body_r, item['n'], item['seed'])
+        return acc
     else:
         from hypothesis import strategies as st
         strat = st.tuples(exprs.st_expr(), st.one_of(st.just('inline'), st.sampled_from(SETTINGS)))
@@ -304,5 +344,198 @@ def work(item: Dict[str, Any]) -> Acc:
 
 
 def replay(case: Dict[str, Any]) -> List[Tuple[str, str]]:
+    if case.get('kind') == 'sites':
+        return check_sites(case['exprs'])[0]
+    if case.get('kind') == 'regex':
+        return check_regex(case['pat'], case['flags'], case['raw'], case['bytes'])[0]
     mode = case['mode'] if case['mode'] == 'inline' else tuple(case['mode'])
     return check_text(case['text'], mode)
+
+
+# ====================================================================================================================
+# in-situ: the same oracle at every place where pydoctor shows an expression (not only colorize_pyval itself)
+# ====================================================================================================================
+
+SITES = ['constant', 'default', 'annotation-param', 'annotation-return', 'annotation-var', 'decorator', 'base-subscript', 'alias']
+
+
+def site_module(exprs_: List[str]) -> str:
+    lines = ['import re', 'from typing import Union, Generic, TypeVar', 'T = TypeVar("T")', 'def deco(*a, **k):', '    return lambda f: f', 'class G(Generic[T]):', '    pass']
+    for i, e in enumerate(exprs_):
+        lines += ['CONST_%d = %s' % (i, e),
+                  'def fd_%d(p=%s):' % (i, e), '    pass',
+                  'def fa_%d(p: %s) -> %s:' % (i, e, e), '    pass',
+                  'va_%d: %s = None' % (i, e),
+                  '@deco(%s, k=%s)' % (e, e), 'def fdeco_%d():' % i, '    pass',
+                  'class KB_%d(G[%s]):' % (i, e), '    pass',
+                  'Alias_%d = Union[int, %s]' % (i, e)]
+    return '\n'.join(lines) + '\n'
+
+
+def _flat_text(x: Any) -> str:
+    from pydoctor.stanutils import flatten
+    return html.unescape(_TAG.sub('', flatten(x)))
+
+
+def check_sites(exprs_: List[str]) -> Tuple[List[Tuple[str, str]], int]:
+    """exprs_: expression texts that the colouriser is known to display faithfully and completely (pure check)."""
+    from pydoctor import epydoc2stan, model
+    from pydoctor.templatewriter import pages
+    from ..sysutil import build
+    s = build([('m', None, False, site_module(exprs_))], args=['--pyval-repr-linelen=0', '--pyval-repr-maxlines=0'])
+    out: List[Tuple[str, str]] = []
+    n = 0
+
+    def unstr(text: str) -> Optional[ast.AST]:
+        # annotations and type aliases: string constants are forward references, shown unquoted (documented)
+        from .c14 import _Unstring
+        import copy
+        try:
+            return _Unstring().visit(copy.deepcopy(ast.parse(text, mode='eval').body))
+        except (SyntaxError, ValueError):
+            return None
+
+    def cmp(site: str, src_text: str, shown: str, i: int) -> None:
+        nonlocal n
+        n += 1
+        if site in ('annotation-var', 'alias'):
+            src_tree = unstr(src_text)
+            if src_tree is None or any(isinstance(x, ast.JoinedStr) for x in ast.walk(ast.parse(src_text, mode='eval'))):
+                return
+        else:
+            src_tree = ast.parse(src_text, mode='eval').body
+        why = exprnorm.same(src_tree, shown.replace(WRAP + '\n', ''))
+        if why:
+            out.append(('site:' + site, 'expression %s at site %s is displayed as %r: %s' % (trunc(exprs_[i], 200), site, trunc(shown, 300), why)))
+    for i, e in enumerate(exprs_):
+        try:
+            c = s.allobjects.get('m.CONST_%d' % i)
+            if c is not None:  # a bare (dotted) name on the right-hand side is an alias, not a constant
+                row = _flat_text(epydoc2stan.format_constant_value(c))
+                shown = row[len('Value'):] if row.startswith('Value') else row
+                cmp('constant', e, shown.strip('\n'), i)
+            fd = s.allobjects['m.fd_%d' % i]
+            sig = _flat_text(pages.format_signature(fd))
+            d = ast.parse('def f%s: pass' % sig).body[0].args.defaults[0]
+            cmp('default', e, ast.unparse(d) if False else sig[len('(p='):-1], i)
+            ue = unstr(e)
+            if any(isinstance(x, ast.JoinedStr) for x in ast.walk(ast.parse(e, mode='eval'))):
+                ue = None  # an f-string is not an annotation expression
+            if ue is not None:
+                fa = s.allobjects['m.fa_%d' % i]
+                sig = _flat_text(pages.format_signature(fa))
+                fdef = ast.parse('def f%s: pass' % sig).body[0]
+                if exprnorm.norm_dump(fdef.args.args[0].annotation) != exprnorm.norm_dump(ue):
+                    out.append(('site:annotation-param', 'annotation %s is displayed as %r' % (trunc(e, 200), sig)))
+                if not (isinstance(ue, ast.Constant) and ue.value is None) and exprnorm.norm_dump(fdef.returns) != exprnorm.norm_dump(ue):
+                    out.append(('site:annotation-return', 'return annotation %s is displayed as %r' % (trunc(e, 200), sig)))
+                n += 2
+            va = s.allobjects['m.va_%d' % i]
+            t = epydoc2stan.type2stan(va)
+            cmp('annotation-var', e, _flat_text(t), i)
+            fdec = s.allobjects['m.fdeco_%d' % i]
+            dec = ''.join(_flat_text(part) if not isinstance(part, str) else part for tup in pages.format_decorators(fdec) for part in tup)
+            cmp('decorator', 'deco(%s, k=%s)' % (e, e), dec.lstrip('@').strip(), i)
+            kb = s.allobjects['m.KB_%d' % i]
+            cs = _flat_text(pages.format_class_signature(kb))
+            cmp('base-subscript', 'G[%s]' % e, cs[1:-1], i)
+            al = s.allobjects['m.Alias_%d' % i]
+            if al.kind is model.DocumentableKind.TYPE_ALIAS:
+                row = _flat_text(epydoc2stan.format_constant_value(al))
+                cmp('alias', 'Union[int, %s]' % e, row[len('Value'):].strip('\n'), i)
+        except Exception as ex:
+            import traceback
+            out.append(('site:raises', 'rendering the sites of %s raised %s: %s\n%s' % (trunc(e, 200), type(ex).__name__, ex, traceback.format_exc()[-500:])))
+    seen = set()
+    res = []
+    for sig, msg in out:
+        if sig not in seen:
+            seen.add(sig)
+            res.append((sig, msg))
+    return res, n
+
+
+# ====================================================================================================================
+# regular expressions: the displayed pattern is the same regular expression
+# ====================================================================================================================
+
+RE_ATOMS = ['a', 'b', 'Z', '0', ' ', '.', r'\d', r'\w', r'\s', r'\D', r'\W', r'\S', r'\b', r'\B', r'\A', r'\Z', '^', '$', r'\.', r'\\', r'\n', r'\t', r'\x41', r'é', r'\(', r'\[', r'\{', r'\*',
+            '[abc]', '[^abc]', '[a-z0-9_]', r'[\d\s]', r'[\]\\^-]', '[.]', "'", '"', '<', '>', '&', 'é', '-', '#', '/', ':', '=', '!', '%', ',', '_', '~', '`', '@']
+RE_QUANT = ['', '', '', '*', '+', '?', '*?', '+?', '??', '{2}', '{2,}', '{,3}', '{2,5}', '{2,5}?']
+
+
+def st_regex():
+    from hypothesis import strategies as st
+    atom = st.sampled_from(RE_ATOMS)
+
+    def group(children):
+        inner = st.lists(children, min_size=1, max_size=3).map(''.join)
+        return st.one_of(
+            inner.map(lambda x: '(' + x + ')'), inner.map(lambda x: '(?:' + x + ')'), inner.map(lambda x: '(?P<n>' + x + ')'),
+            inner.map(lambda x: '(?=' + x + ')'), inner.map(lambda x: '(?!' + x + ')'), inner.map(lambda x: '(?<=a' + ')' + x), inner.map(lambda x: '(?<!b)' + x),
+            st.tuples(inner, inner).map(lambda t: t[0] + '|' + t[1]), st.tuples(inner, inner).map(lambda t: '(?:' + t[0] + '|' + t[1] + ')'),
+            inner.map(lambda x: '(' + x + r')\1'), inner.map(lambda x: '(?P<q>' + x + ')(?P=q)'), inner.map(lambda x: '(x)?(?(1)' + x + '|y)'),
+            inner.map(lambda x: '(?i:' + x + ')'), inner.map(lambda x: '(?s)' + x), st.tuples(children, st.sampled_from(RE_QUANT)).map(lambda t: '(?:' + t[0] + ')' + t[1]))
+    piece = st.tuples(atom, st.sampled_from(RE_QUANT)).map(lambda t: t[0] + t[1] if t[0] not in ('^', '$', r'\b', r'\B', r'\A', r'\Z') else t[0])
+    pat = st.recursive(piece, group, max_leaves=8)
+    flags = st.sampled_from(['', '', '', ', re.I', ', re.I | re.M', ', flags=re.S', ', re.VERBOSE', ', 0'])
+    return st.tuples(st.lists(pat, min_size=1, max_size=4).map(''.join), flags, st.booleans(), st.booleans())
+
+
+def check_regex(pat: str, flags: str, raw: bool, as_bytes: bool) -> Tuple[List[Tuple[str, str]], bool]:
+    import re
+    import warnings
+    try:
+        with warnings.catch_warnings():
+            warnings.simplefilter('ignore')
+            compiled = re.compile(pat.encode('utf-8') if as_bytes else pat)
+    except Exception:
+        return [], False
+    if as_bytes and any(ord(c) > 127 for c in pat):
+        return [], False
+    lit = repr(pat.encode('utf-8')) if as_bytes else repr(pat)
+    text = 're.compile(%s%s)' % (lit, flags)
+    if not exprs.valid(text):
+        return [], False
+    shown, complete, warns, problem = render(text, 'inline')
+    out: List[Tuple[str, str]] = []
+    if problem and 'undefined entity' not in (problem or ''):
+        out.append(('regex:stan-vs-node', 'pattern %r: %s' % (pat, problem)))
+    if not complete:
+        return out, True
+    try:
+        tree = ast.parse(shown, mode='eval').body
+    except SyntaxError:
+        return out + [('regex:not-python', 'pattern %r is displayed as %r which is not a Python expression' % (pat, shown))], True
+    src_tree = ast.parse(text, mode='eval').body
+    ok = isinstance(tree, ast.Call) and exprnorm.norm_dump(tree.func) == exprnorm.norm_dump(src_tree.func) and len(tree.args) >= 1
+    if not ok:
+        return out + [('regex:call-shape', 'pattern %r is displayed as %r' % (pat, shown))], True
+    # flags / remaining arguments must be the same expressions
+    # re.compile(pattern, flags=0): the arguments are bound to this signature and shown positionally
+    rest_src = [exprnorm.norm_dump(a) for a in src_tree.args[1:]] + [exprnorm.norm_dump(k.value) for k in src_tree.keywords if k.arg == 'flags']
+    rest_got = [exprnorm.norm_dump(a) for a in tree.args[1:]] + [exprnorm.norm_dump(k.value) for k in tree.keywords if k.arg == 'flags']
+    if rest_src != rest_got:
+        out.append(('regex:flags', 'pattern %r with arguments %r is displayed as %r' % (pat, flags, shown)))
+    a0 = tree.args[0]
+    if not (isinstance(a0, ast.Constant) and isinstance(a0.value, (str, bytes))):
+        return out + [('regex:call-shape', 'pattern %r is displayed as %r' % (pat, shown))], True
+    shown_pat = a0.value
+    want_pat = pat.encode('utf-8') if as_bytes else pat
+    if shown_pat != want_pat:
+        # a different spelling is fine if it is the same regular expression
+        try:
+            import re._parser as sp  # type: ignore
+        except ImportError:  # pragma: no cover
+            import sre_parse as sp  # type: ignore
+        try:
+            with warnings.catch_warnings():
+                warnings.simplefilter('ignore')
+                t1 = sp.parse(want_pat)
+                t2 = sp.parse(shown_pat)
+            same = repr(t1) == repr(t2) and t1.state.flags == t2.state.flags
+        except Exception as e:
+            same = False
+        if not same:
+            out.append(('regex:pattern-changed', 'pattern %r is displayed as %r (%r), which is a different regular expression' % (want_pat, shown_pat, shown)))
+    return out, True
